@@ -309,19 +309,19 @@ def const_uses(fb, body):
 
 # --------------------------------------------------------------------------- A5: transcripts
 
-DIGEST_NEW = ("<D as sha1::Digest>::new",)
-CHAIN_UPDATE = ("<D as sha1::Digest>::chain_update",)
-DIGEST_UPDATE = ("<D as sha1::Digest>::update",)
-DIGEST_FINAL = ("<D as sha1::Digest>::finalize", "sha1::digest::FixedOutput::finalize_fixed", "<D as sha1::Digest>::finalize_fixed")
-MAC_NEW = ("<T as hmac::Mac>::new_from_slice",)
-MAC_UPDATE = ("<T as hmac::Mac>::update",)
-MAC_CHAIN = ("<T as hmac::Mac>::chain_update",)
-MAC_FINAL = ("<T as hmac::Mac>::finalize",)
+DIGEST_NEW = ("<D as digest::Digest>::new",)
+CHAIN_UPDATE = ("<D as digest::Digest>::chain_update",)
+DIGEST_UPDATE = ("<D as digest::Digest>::update",)
+DIGEST_FINAL = ("<D as digest::Digest>::finalize", "digest::FixedOutput::finalize_fixed", "<D as digest::Digest>::finalize_fixed")
+MAC_NEW = ("<T as digest::Mac>::new_from_slice",)
+MAC_UPDATE = ("<T as digest::Mac>::update",)
+MAC_CHAIN = ("<T as digest::Mac>::chain_update",)
+MAC_FINAL = ("<T as digest::Mac>::finalize",)
 IDENT_CALLS = (
     "<T as std::convert::Into<U>>::into",
-    "sha1::digest::CtOutput::<T>::into_bytes",
-    "sha1::digest::generic_array::GenericArray::<T, N>::as_slice",
-    "<sha1::digest::generic_array::GenericArray<T, N> as std::ops::Deref>::deref",
+    "digest::CtOutput::<T>::into_bytes",
+    "digest::generic_array::GenericArray::<T, N>::as_slice",
+    "<digest::generic_array::GenericArray<T, N> as std::ops::Deref>::deref",
     "<[T; N] as std::convert::AsRef<[T]>>::as_ref",
     "core::array::<impl [T; N]>::as_slice",
     "std::array::<impl [T; N]>::as_slice",
